@@ -960,3 +960,229 @@ Proof.
     + split; [cbn; lia | intros p n; cbn; lia].
   - inversion H; subst e1. apply ri_core_err_total in C1 as [C1|(B & E & S)]; auto. right. repeat split; auto. nia.
 Qed.
+
+(* ================= pools as plain lists: UTxO i = (i, pool[i]) ================= *)
+Lemma index_in_gen (l : list value) : forall s i v, In (i, v) (combine (seq s (length l)) l) ->
+  (s <= i < s + length l)%nat /\ nth (i - s) l v_zero = v.
+Proof.
+  induction l as [|x l IH]; intros s i v H; cbn in H; [destruct H|]. destruct H as [H|H].
+  - inversion H; subst. split; [cbn; lia | now rewrite Nat.sub_diag].
+  - apply IH in H as [H1 H2]. split; [cbn; lia|]. replace (i - s)%nat with (S (i - S s)) by lia. exact H2.
+Qed.
+Lemma index_pool_in pool i v : In (i, v) (index_pool pool) -> (i < length pool)%nat /\ nth i pool v_zero = v.
+Proof. intros H. apply index_in_gen in H as [H1 H2]. rewrite Nat.sub_0_r in H2. split; [lia | exact H2]. Qed.
+
+Lemma index_fst_gen (l : list value) : forall s, map fst (combine (seq s (length l)) l) = seq s (length l).
+Proof. induction l as [|x l IH]; intros s; cbn; [reflexivity|]. now rewrite IH. Qed.
+Lemma index_snd_gen (l : list value) : forall s, map snd (combine (seq s (length l)) l) = l.
+Proof. induction l as [|x l IH]; intros s; cbn; [reflexivity|]. now rewrite IH. Qed.
+Lemma index_pool_nodup pool : NoDup (map uid (index_pool pool)).
+Proof. unfold index_pool, uid. rewrite index_fst_gen. apply seq_NoDup. Qed.
+Lemma index_pool_vals pool : map uval (index_pool pool) = pool.
+Proof. apply index_snd_gen. Qed.
+Lemma index_pool_forall (P : value -> Prop) pool : Forall P pool -> Forall (fun u => P (uval u)) (index_pool pool).
+Proof.
+  intros F. apply Forall_forall. intros [i v] H. apply in_combine_r in H. rewrite Forall_forall in F. apply F, H.
+Qed.
+
+(* the statement of the property on selected positions *)
+Definition ok_idx (pool outs : list value) (lim : option Z) (fee : Z) (sel : list nat) (chg : value) : Prop :=
+  NoDup sel /\ (forall i, In i sel -> (i < length pool)%nat)
+  /\ covers fee outs (sel_values pool sel)
+  /\ change_is fee outs (sel_values pool sel) chg
+  /\ (forall n, lim = Some n -> 0 < n -> Z.of_nat (length sel) <= n).
+
+Lemma sel_ok_idx pool outs lim fee sel chg : Forall wfv pool -> Forall wfv outs ->
+  sel_ok (index_pool pool) (req_total fee outs) lim sel chg -> ok_idx pool outs lim fee (map uid sel) chg.
+Proof.
+  intros WP WO (N & I & Le & -> & L).
+  assert (V : sel_values pool (map uid sel) = map uval sel).
+  { unfold sel_values. rewrite map_map. apply map_ext_in. intros [i v] H. apply I, index_pool_in in H. tauto. }
+  assert (WS : Forall uwf sel) by (eapply Forall_incl; [exact I | apply (index_pool_forall wfv), WP]).
+  destruct (vsum_spec sel WS) as (Ws & Cs & Ms). destruct (req_total_spec fee outs WO) as (Wr & Cr & Mr).
+  destruct (v_sub_spec _ _ Ws Wr) as (Cd & Md & _). apply v_le_spec in Le as [Lc Lm].
+  unfold ok_idx. rewrite V. split; [exact N|]. split; [|split; [|split]].
+  - intros i Hi. apply in_map_iff in Hi as ([j v] & <- & H). apply I, index_pool_in in H. tauto.
+  - split; [lia | intros p n; specialize (Lm p n); rewrite Mr, Ms in Lm; exact Lm].
+  - split; [rewrite Cd, Cs, Cr; reflexivity | intros p n; rewrite Md, Ms, Mr; reflexivity].
+  - intros n E P. rewrite map_length. now apply L.
+Qed.
+
+Theorem lf_idx_sound pool outs lim fee minchg sel chg :
+  Forall wfv pool -> Forall v_nonneg pool -> Forall wfv outs ->
+  lf_select_idx pool outs lim fee minchg = Ok (sel, chg) -> ok_idx pool outs lim fee sel chg.
+Proof.
+  intros WP NP WO H. unfold lf_select_idx, ids in H.
+  destruct (lf_select (index_pool pool) outs lim fee minchg) as [[s c]|e] eqn:E; [|discriminate]. inversion H; subst.
+  apply sel_ok_idx; auto. eapply lf_select_sound; eauto using index_pool_nodup.
+  - apply (index_pool_forall wfv), WP.
+  - apply (index_pool_forall v_nonneg), NP.
+Qed.
+
+Theorem ri_idx_sound bi rs pool outs lim fee minchg sel chg :
+  Forall wfv pool -> Forall v_nonneg pool -> Forall wfv outs ->
+  ri_select_idx bi rs pool outs lim fee minchg = Ok (sel, chg) -> ok_idx pool outs lim fee sel chg.
+Proof.
+  intros WP NP WO H. unfold ri_select_idx, ids in H.
+  destruct (ri_select bi rs (index_pool pool) outs lim fee minchg) as [[s c]|e] eqn:E; [|discriminate]. inversion H; subst.
+  apply sel_ok_idx; auto. eapply ri_select_sound; eauto using index_pool_nodup.
+  - apply (index_pool_forall wfv), WP.
+  - apply (index_pool_forall v_nonneg), NP.
+Qed.
+
+Lemma ids_err {B} (r : res (list utxo * B)) e : ids r = Err e -> r = Err e.
+Proof. destruct r as [[s b]|e']; cbn; [discriminate | congruence]. Qed.
+
+Theorem lf_idx_complete pool outs lim fee minchg :
+  Forall wfv pool -> Forall v_nonneg pool -> Forall wfv outs ->
+  lf_select_idx pool outs lim fee minchg = Err EInsufficient ->
+  ~ covers fee outs pool
+  \/ exists mc chg, minchg = Some mc /\ coin_sum pool < fee + coin_sum outs + mc chg.
+Proof.
+  intros WP NP WO H. apply ids_err in H. apply lf_select_complete in H; auto.
+  - rewrite index_pool_vals in H. destruct H as [H|(mc & sel1 & E & _ & Lt)]; [now left | right; eauto].
+  - apply (index_pool_forall wfv), WP.
+  - apply (index_pool_forall v_nonneg), NP.
+Qed.
+
+Theorem lf_idx_errors pool outs lim fee minchg e :
+  Forall wfv pool -> Forall wfv outs ->
+  lf_select_idx pool outs lim fee minchg = Err e ->
+  e = EInsufficient \/ (e = EMaxInput /\ exists n, lim = Some n /\ n <> 0).
+Proof.
+  intros WP WO H. apply ids_err in H. eapply lf_select_errors; [| |exact H]; [apply (index_pool_forall wfv), WP | exact WO].
+Qed.
+
+(* random improve, built-in random source: with at least ri_draw_bound outcomes available the run ends with a result
+   or with MaxInputCountExceeded / InputUTxODepleted — whatever the outcomes are *)
+Theorem ri_idx_total rs pool outs lim fee minchg :
+  Forall wfv pool -> Forall v_nonneg pool -> Forall wfv outs -> Forall v_nonneg outs -> 0 <= fee ->
+  (ri_draw_bound (index_pool pool) (req_total fee outs) <= length rs)%nat ->
+  (exists sel chg, ri_select_idx true rs pool outs lim fee minchg = Ok (sel, chg))
+  \/ ri_select_idx true rs pool outs lim fee minchg = Err EMaxInput
+  \/ ri_select_idx true rs pool outs lim fee minchg = Err EDepleted.
+Proof.
+  intros WP NP WO NO Pf Len. unfold ri_select_idx.
+  destruct (ri_select true rs (index_pool pool) outs lim fee minchg) as [[s c]|e] eqn:E; [left; cbn; eauto | right].
+  apply ri_select_errors in E; auto using index_pool_nodup.
+  - cbn. destruct E as [[->|[->|[X _]]]|(_ & _ & S)]; auto; [discriminate | lia].
+  - apply (index_pool_forall wfv), WP.
+  - apply (index_pool_forall v_nonneg), NP.
+Qed.
+
+(* random improve, injected generator: for EVERY stream (any integers, any length) the run ends with a result or with
+   a UTxOSelectionException kind *)
+Theorem ri_idx_errors_injected rs pool outs lim fee minchg e :
+  Forall wfv pool -> Forall v_nonneg pool -> Forall wfv outs -> Forall v_nonneg outs -> 0 <= fee ->
+  ri_select_idx false rs pool outs lim fee minchg = Err e ->
+  e = EMaxInput \/ e = EDepleted \/ e = ESelection.
+Proof.
+  intros WP NP WO NO Pf H. apply ids_err in H. apply ri_select_errors in H; auto using index_pool_nodup.
+  - destruct H as [[->|[->|[_ ->]]]|(X & _)]; auto. discriminate.
+  - apply (index_pool_forall wfv), WP.
+  - apply (index_pool_forall v_nonneg), NP.
+Qed.
+
+Lemma index_pool_length pool : length (index_pool pool) = length pool.
+Proof. unfold index_pool. etransitivity; [apply combine_length|]. rewrite seq_length. lia. Qed.
+
+(* ================= the oracle of CoinSelOracle.v decides the statement ================= *)
+From PyC Require Import ValueOracle CoinSelOracle.
+
+Lemma nodupb_NoDup l : nodupb l = true -> NoDup l.
+Proof.
+  induction l as [|x l IH]; cbn; intros H; [constructor|]. apply andb_true_iff in H as [H1 H2].
+  constructor; [|now apply IH]. intros I. apply negb_true_iff in H1.
+  assert (X : existsb (Nat.eqb x) l = true) by (apply existsb_exists; exists x; split; [exact I | apply Nat.eqb_refl]). congruence.
+Qed.
+
+Theorem c14_ok_sound pool outs lim fee sel chg : Forall wfv pool -> Forall wfv outs ->
+  c14_ok pool outs lim fee sel chg = true ->
+  NoDup sel /\ (forall i, In i sel -> (i < length pool)%nat)
+  /\ covers fee outs (sel_values pool sel) /\ change_is fee outs (sel_values pool sel) chg
+  /\ (forall n, lim = Some n -> Z.of_nat (length sel) <= n).
+Proof.
+  intros WP WO H. unfold c14_ok in H. repeat (apply andb_true_iff in H as [H ?]).
+  rename H into Hn, H0 into Hl, H1 into He, H2 into Hc, H3 into Hi.
+  assert (WV : Forall wfv (sel_values pool sel)).
+  { unfold sel_values. apply Forall_forall. intros v Hv. apply in_map_iff in Hv as (i & <- & _).
+    destruct (Nat.lt_ge_cases i (length pool)) as [L|G]; [rewrite Forall_forall in WP; apply WP, nth_In, L|].
+    rewrite nth_overflow by exact G. apply wfv_zero. }
+  destruct (req_fold_spec _ v_zero wfv_zero WV) as (Ws & Cs & Ms). fold (sumv (sel_values pool sel)) in *.
+  destruct (req_total_spec fee outs WO) as (Wr & Cr & Mr).
+  destruct (v_sub_spec _ _ Ws Wr) as (Cd & Md & _).
+  apply v_le_spec in Hc as [Lc Lm]. apply v_eq_spec in He as [Ec Em].
+  split; [now apply nodupb_NoDup|]. split; [|split; [|split]].
+  - intros i Hi'. rewrite forallb_forall in Hi. apply Hi, Nat.ltb_lt in Hi'. exact Hi'.
+  - split; [cbn in Cs; lia | intros p n; specialize (Lm p n); rewrite Mr, Ms in Lm; cbn in Lm; lia].
+  - split; [rewrite Ec, Cd, Cs, Cr; cbn; lia | intros p n; rewrite Em, Md, Ms, Mr; cbn; lia].
+  - intros n ->. cbn in Hl. apply Z.leb_le in Hl. exact Hl.
+Qed.
+
+Theorem lf_insufficient_ok_sound c : Forall wfv (i_pool c) -> Forall wfv (i_outs c) ->
+  lf_insufficient_ok c = true ->
+  ~ covers (i_fee c) (i_outs c) (i_pool c)
+  \/ exists m, i_mc c = Some m /\ coin_sum (i_pool c) < i_fee c + coin_sum (i_outs c) + m.
+Proof.
+  intros WP WO H. unfold lf_insufficient_ok in H.
+  destruct (req_fold_spec _ v_zero wfv_zero WP) as (Ws & Cs & Ms). fold (sumv (i_pool c)) in *.
+  destruct (req_total_spec (i_fee c) (i_outs c) WO) as (Wr & Cr & Mr).
+  apply orb_true_iff in H as [H|H].
+  - left. intros [Cc Cm]. apply negb_true_iff in H.
+    assert (X : v_le (req_total (i_fee c) (i_outs c)) (sumv (i_pool c)) = true).
+    { apply v_le_spec. split; [rewrite Cr, Cs; cbn; lia | intros p n; rewrite Mr, Ms; cbn; specialize (Cm p n); lia]. }
+    congruence.
+  - right. apply andb_true_iff in H as [_ H]. destruct (i_mc c) as [m|]; [|discriminate]. exists m. split; [reflexivity|].
+    apply Z.ltb_lt in H. rewrite Cs, Cr in H. cbn in H. lia.
+Qed.
+
+(* ================= non-vacuity and the former defect witnesses (now inside the theorems) ================= *)
+Local Transparent v_add v_sub v_le.
+Definition ada (k : Z) : value := mkValue (k * 1000000) [].
+Definition tokA : bytes * bytes := (hx "01010101010101010101010101010101010101010101010101010101", hx "61").
+Definition with_tok (k q : Z) : value := mkValue (k * 1000000) [(fst tokA, [(snd tokA, q)])].
+
+(* hypotheses of lf_idx_sound / ri_idx_sound are satisfiable with a non-trivial run (token request, min-change top-up) *)
+Example lf_example :
+  let pool := [ada 5; with_tok 2 3; ada 1; ada 1] in
+  let outs := [with_tok 1 2; ada 3] in
+  Forall wfv pool /\ Forall v_nonneg pool /\ Forall wfv outs /\
+  lf_select_idx pool outs (Some 3) 300000 (Some (fun _ => 1100000))
+  = Ok ([0; 1; 3]%nat, mkValue 3700000 [(fst tokA, [(snd tokA, 1)])]).
+Proof.
+  cbv zeta. split; [|split; [|split]]; [| | |vm_compute; reflexivity].
+  - repeat constructor; cbn; intuition discriminate.
+  - repeat constructor; cbn; try lia; intros p n; unfold content, mget, aget; cbn;
+      repeat (match goal with |- context [bytes_eqb ?a ?b] => destruct (bytes_eqb a b) end; cbn); lia.
+  - repeat constructor; cbn; intuition discriminate.
+Qed.
+
+Example ri_example :
+  let pool := [ada 5; with_tok 2 3; ada 1; ada 1] in
+  ri_select_idx false [2; 0; 0; 1; 0; 0; 0] pool [with_tok 1 2; ada 3] (Some 3) 300000 (Some (fun _ => 1100000))
+  = Ok ([1; 0]%nat, mkValue 2700000 [(fst tokA, [(snd tokA, 1)])])
+  /\ ri_select_idx true [7; -3; 12; 5; 1; 0; 0; 0; 0; 0; 0; 0; 0; 0; 0; 0; 0; 0; 0; 0] pool [with_tok 1 2; ada 3] (Some 3) 300000
+       (Some (fun _ => 1100000))
+     = Ok ([1; 0]%nat, mkValue 2700000 [(fst tokA, [(snd tokA, 1)])])
+  /\ (ri_draw_bound (index_pool pool) (req_total 300000 [with_tok 1 2; ada 3]) <= 20)%nat.
+Proof. vm_compute. repeat split; try reflexivity. lia. Qed.
+
+(* largest-first insufficient: both disjuncts of lf_idx_complete occur *)
+Example lf_insufficient_examples :
+  lf_select_idx [ada 5; ada 1] [ada 6] None 1 None = Err EInsufficient
+  /\ lf_select_idx [ada 5; ada 1] [mkValue 5500000 []] None 0 (Some (fun _ => 978370)) = Err EInsufficient.
+Proof. vm_compute. split; reflexivity. Qed.
+
+(* former defect witnesses (pinned tree): now the limit holds, out-of-range indices are selection errors *)
+Example former_limit_plus_one_witness :
+  ri_select_idx false [0; 0; 0; 0] [ada 5; ada 5; ada 5; ada 1; mkValue 1200000 []] [ada 9] (Some 2) 0 None
+  = Ok ([0; 1]%nat, ada 1).
+Proof. vm_compute. reflexivity. Qed.
+Example former_topup_limit_witness :
+  lf_select_idx [ada 5; ada 1; ada 1] [mkValue 4500000 []] (Some 1) 0 (Some (fun _ => 978370)) = Err EMaxInput
+  /\ ri_select_idx false [0; 0; 0; 0; 0; 0; 0] [ada 5; ada 1; ada 1] [mkValue 4500000 []] (Some 1) 0 (Some (fun _ => 978370)) = Err EMaxInput.
+Proof. vm_compute. split; reflexivity. Qed.
+Example former_index_witnesses :
+  ri_select_idx false [5] [ada 5; ada 5; ada 5; ada 1; mkValue 1200000 []] [ada 9] (Some 2) 0 None = Err ESelection
+  /\ ri_select_idx false [0; -1; -1; -1] [ada 3; ada 1; ada 1] [ada 3] None 0 None = Ok ([0]%nat, ada 0).
+Proof. vm_compute. split; reflexivity. Qed.
